@@ -51,7 +51,9 @@ static void table(const char *q, int tr, int Z, int shell, int n, const double *
       if (ed > 0) { pt(q, tr, Z, ed * (1 - 1e-9)); pt(q, tr, Z, ed * (1 + 1e-9)); pt(q, tr, Z, ed); if (ed < lo) { pt(q, tr, Z, 0.5 * (ed + lo)); pt(q, tr, Z, ed + 0.9 * (lo - ed)); pt(q, tr, Z, ed + 0.01 * (lo - ed)); } }
     }
     for (int k = 0; k + 1 < n; k++) {
-      if (!full && rnd01() > frac) continue;
+      /* always: the intervals around an irregularity of the abscissae (a duplicated edge knot, an unsorted pair), where readers and bisections go wrong */
+      int near = 0; for (int j = k - 2; j <= k + 2 && !near; j++) if (j >= 0 && j + 1 < n && xa[j + 1] <= xa[j]) near = 1;
+      if (!full && !near && rnd01() > frac) continue;
       double a = xa[k], b = xa[k + 1];
       pt(q, tr, Z, inv(tr, a)); pt(q, tr, Z, inv(tr, 0.5 * (a + b))); pt(q, tr, Z, inv(tr, a + rnd01() * (b - a))); pt(q, tr, Z, inv(tr, a + rnd01() * (b - a)));
     }
